@@ -27,7 +27,9 @@ func init() {
 			{Pkg: "wire", Entry: "VerifH10i", What: "an oversized message (body made of well-formed messages, one of them a Query) arriving while a handler reads COPY data: skipped in full, nothing of it taken for a message, the COPY aborted with exactly one ErrorResponse and one ReadyForQuery, the query after it served",
 				Quick: map[string]int{}, Witnesses: []string{"oversized-copydata", "query-inside-the-oversized-body"}},
 			{Pkg: "wire", Entry: "VerifH10e", What: "startup packet declaring a length below 4 or above the limit: connection ends, no session",
-				Quick: map[string]int{"REST": 6}, Witnesses: []string{"startup-length-below-minimum", "startup-length-above-limit"}},
+				Quick: map[string]int{"REST": 6}, Witnesses: []string{"startup-length-below-minimum", "startup-length-above-limit", "startup-body-withheld"}},
+			{Pkg: "wire", Entry: "VerifH10p", What: "a message of any type declaring any length above the limit (up to 2^32-1) in place of the password message, its body withheld by a client that then waits, or sent in full and followed by a correct password message and a query: the connection ends without waiting, no validator call, no AuthenticationOk, no ReadyForQuery, no session",
+				Quick: map[string]int{"OVER": 3}, Witnesses: []string{"password-body-withheld", "password-body-sent"}},
 			{Pkg: "wire", Entry: "VerifH11", What: "the configured limit is the one in force on a TLS-upgraded connection and on a connection whose SSLRequest was refused",
 				Quick: map[string]int{"STUFF": 2}, Witnesses: []string{"limit-enforced-inside-tls", "limit-enforced-after-refusal"}},
 			{Pkg: "wire", Entry: "VerifH10f", What: "server-level default: a non-positive size (option, exported field, or no configuration) serves a 5000-byte message normally; thorough: a message declaring more than 16 MiB is skipped with one 54000 error and the next message is served",
@@ -52,6 +54,8 @@ func init() {
 			{Pkg: "wire", Entry: "VerifH18b", What: "retained query text and parameter value equal their private copies after K later messages with sizes around the 4 KiB granule and the limit",
 				Quick: map[string]int{"K": 2}, Thorough: map[string]int{"K": 3},
 				Witnesses: []string{"later-message-near-granule", "later-oversized-message", "large-retained-message", "abandoned-copy", "rejected-parse-then-skipped-messages"}},
+			{Pkg: "wire", Entry: "VerifH18c", What: "two binary COPY streams whose tuple is split across two CopyData messages (inside the header, the field count, the field length or the value), text or bytea column, with a retained query between them and after: retained query texts and delivered row values equal their private copies at the end",
+				Quick: map[string]int{}, Witnesses: []string{"both-copies-split-inside-the-value", "copy-value-delivered-as-bytes"}},
 		},
 	})
 }
